@@ -114,3 +114,64 @@ where heightL : List Node → Nat
   | c :: cs => max (height c) (heightL cs)
 
 end Rangers.Trie
+
+namespace Rangers.Trie
+open Rangers
+/-! ### where the Go code would panic
+The model functions are total; in the branches below the Go code indexes out of range,
+fails a type assertion or hits `default: panic("invalid node")`.  `Props.C02.no_panic_*`
+show these branches are unreachable for a minimal-form trie and a terminated key, so no
+theorem about `get`/`insert`/`delete` holds thanks to a default value. -/
+
+mutual
+def getPanics : Node → Key → Bool
+  | .nil, _ => false
+  | .value _, _ => false
+  | .short k v, key =>
+    if k.length ≤ key.length ∧ key.take k.length = k then getPanics v (key.drop k.length) else false
+  | .full _, [] => true                       -- key[pos] out of range
+  | .full cs, i :: rest => getPanicsAt cs i rest
+def getPanicsAt : List Node → Nat → Key → Bool
+  | [], _, _ => true                          -- Children[i], i ≥ 17
+  | c :: _, 0, rest => getPanics c rest
+  | _ :: cs, i + 1, rest => getPanicsAt cs i rest
+end
+
+mutual
+def insertPanics : Node → Key → Node → Bool
+  | .value _, [], value =>
+    match value with
+    | .value _ => false
+    | _ => true                                -- value.(valueNode)
+  | _, [], _ => false
+  | .short k v, key, value =>
+    let m := prefixLen key k
+    if m = k.length then insertPanics v (key.drop m) value
+    else decide (key.length ≤ m) || decide (17 ≤ k.getD m 0) || decide (17 ≤ key.getD m 0)
+  | .full cs, i :: rest, value => insertPanicsAt cs i rest value
+  | .nil, _, _ => false
+  | .value _, _ :: _, _ => true                -- default: panic("invalid node")
+def insertPanicsAt : List Node → Nat → Key → Node → Bool
+  | [], _, _, _ => true
+  | c :: _, 0, rest, value => insertPanics c rest value
+  | _ :: cs, i + 1, rest, value => insertPanicsAt cs i rest value
+end
+
+mutual
+def deletePanics : Node → Key → Bool
+  | .short k v, key =>
+    let m := prefixLen key k
+    if m < k.length then false
+    else if m = key.length then false
+    else deletePanics v (key.drop k.length)
+  | .full _, [] => true
+  | .full cs, i :: rest => deletePanicsAt cs i rest
+  | .value _, _ => false
+  | .nil, _ => false
+def deletePanicsAt : List Node → Nat → Key → Bool
+  | [], _, _ => true
+  | c :: _, 0, rest => deletePanics c rest
+  | _ :: cs, i + 1, rest => deletePanicsAt cs i rest
+end
+
+end Rangers.Trie
